@@ -7,7 +7,7 @@ A case is a JSON dict; build(case) returns (sampler, target).
 import numpy as np
 from hypothesis import strategies as st
 
-from .targets import PermutingPool, ScriptedExecutor, Target, simple_target_spec
+from .targets import BLOB_MODES, PermutingPool, ScriptedExecutor, Target, simple_target_spec
 
 
 class LLExtra:
@@ -24,7 +24,7 @@ class LLExtra:
 
 
 @st.composite
-def full_config(draw, modes=("vector", "scalar", "blobs", "blobs2"), pools=(None, None, "permuting", "executor", 1), allow_zero=True,
+def full_config(draw, modes=("vector", "scalar", "blobs", "blobs2", "blobs_auto", "blobs_str"), pools=(None, None, "permuting", "executor", 1), allow_zero=True,
                 max_d=3, allow_narrow=True, allow_extra=True, metrics=("ess", "ess", "vv0.3", "vv2", "vv0.1")):
     d = draw(st.integers(1, max_d))
     mode = draw(st.sampled_from(list(modes)))
@@ -64,7 +64,7 @@ def build(case, target=None, output_dir=None, random_state="case", n_particles=N
 
     t = target or make_target(case)
     kw = t.sampler_kwargs()
-    nblob = {"blobs": 1, "blobs2": 2}.get(case["mode"], 0)
+    nblob = BLOB_MODES.get(case["mode"], 0)
     extra = case.get("ll_extra", "none")
     if extra != "none":
         kw["log_likelihood"] = LLExtra(t.loglike, nblob)
